@@ -68,4 +68,35 @@ PROPS = {
         assumptions=["exact oracle per (row, column) product summed in 128-bit integers; budget = sum of the C01 "
                      "budgets of the rows + 1/2", "scratch buffers are exactly *_tmp_bytes and NaN-prefilled", ASAN_NOTE],
     ),
+    "C10": dict(
+        runs=std(),
+        rule=("case = one product-kernel call (kernel, ref/avx2, ell, operand families of x and y) or one batch of "
+              "conversions / block copies (nn, repetition); distinct by descriptor hash; non-trivial when ell >= 1 or "
+              "the conversion input is non-empty"),
+        require={"all": ["product_lanes_checked", "conversion_values_checked", "blocks_checked"]},
+        assumptions=["oracle: operands reduced modulo each prime, products accumulated with 128-bit arithmetic; CRT "
+                     "constants recomputed by the oracle", ASAN_NOTE],
+    ),
+    "C03": dict(
+        runs=std(),
+        rule=("case = (n, lane family, table set, repetition) transform batch (round trip + linearity + convolution), "
+              "an evaluation-map check, or one module-level dft/idft call (N, a/dft/res limb counts, stride, variant); "
+              "distinct by descriptor hash; non-trivial when n >= 2 and the input is not constant zero"),
+        require={"all": ["roundtrips_checked", "linearity_checked", "convolutions_checked", "horner_evaluations",
+                         "module_roundtrip_limbs"]},
+        assumptions=["oracle works on the residues of the 64-bit lanes modulo each prime; convolution by schoolbook "
+                     "(n<=256) or an oracle-side NTT with its own root search",
+                     "tables of all 17 sizes are alive together, created large-to-small and small-to-large", ASAN_NOTE],
+    ),
+    "C04": dict(
+        runs=std(),
+        rule=("case = one product-kernel call on worst-case operands (kernel, ref/avx2, ell, x/y family) or one traced "
+              "transform batch (n, lane family, repetition: ntt, intt of its output, intt and ntt on the raw lanes); "
+              "distinct by descriptor hash; non-trivial when ell >= 1 / n >= 2 with at least one lane >= 2^63"),
+        require={"all": ["product_lanes_checked", "max_ell_products", "h2_stage_events", "h2_traced_transforms"]},
+        assumptions=["hook H2 reports every stage of the real schedule; the shadow re-executes it in 128-bit arithmetic "
+                     "from the library's own metadata and must reproduce the real lanes bit for bit",
+                     "the interval envelope is reported as information (conservative bounds), never as a violation",
+                     "default 30-bit prime set", ASAN_NOTE],
+    ),
 }
